@@ -27,6 +27,7 @@ FUNCTIONS = [
     "autoarray.inversion.pixelization.mappers.delaunay.MapperDelaunay.pix_sub_weights",
     "autoarray.inversion.pixelization.mappers.abstract.AbstractMapper.mapping_matrix",
     "autoarray.inversion.pixelization.mappers.abstract.AbstractMapper.unique_mappings",
+    "autoarray.inversion.pixelization.mappers.abstract.AbstractMapper.neighbors",
     "autoarray.inversion.linear_obj.unique_mappings.UniqueMappings.__init__",
     "autoarray.operators.over_sampling.uniform.OverSamplerUniform.sub_fraction",
     "autoarray.operators.over_sampling.uniform.OverSamplerUniform.slim_for_sub_slim",
@@ -40,17 +41,20 @@ BOUNDS = {
              "confined to listed blocks of cells / listed triangles (their coordinates stay symbolic) to bound the number of paths, at least one "
              "sub-pixel per case ranges over the whole mesh / whole plane; Delaunay vertex sets v4,v5,v6,v7 (dyadic, general position), positions within "
              "+-4 of the centroid; index tables: all tables with <=7 mappings over <=3 source pixels by forking (symbolic weights), symbolic tables "
-             "(merge interpreter) for <=3 mappings per data pixel",
+             "(merge interpreter) for <=3 mappings per data pixel; neighbour lists: every history of 2 rectangular meshes with shapes in 3..6 x 3..6, every "
+             "history of 3 meshes with equal pixel count and shapes in 3..8, single meshes 3..8, every ordered pair of 6 Delaunay vertex sets - through "
+             "overlay_grid / the constructor / mapper.neighbors / source_plane_mesh_grid.neighbors",
     "thorough": "same scheme with sub sizes 1..4, meshes up to 7x8, masks of 2x3 by forking, vertex set v9, two free points per Delaunay case, symbolic-box "
-                "mapper cases with a free third point, every assignment of the extremes for 3 and 4 points, index tables with up to 10 mappings",
+                "mapper case with a free third point, every assignment of the extremes for 3 points, index tables with up to 10 mappings; neighbour histories: "
+                "pairs 3..8, equal-pixel triples 3..10, singles 3..12, triples of Delaunay sets",
 }
 OUTSIDE = [
     "Voronoi natural-neighbour mapper (excluded by the property: external C library absent)",
     "the Delaunay triangulation itself and scipy's find_simplex (compiled qhull): the triangulation of each listed vertex set is computed natively and trusted; "
     "points within qhull's tolerance of a facet may be assigned differently than by exact containment",
-    "neighbour lists: no real-valued input exists, so nothing is left for the solver to quantify over; rectangular 4-connectivity/symmetry for all shapes "
-    "3..6 (quick) / 3..10 (thorough) and Delaunay neighbours = triangulation edges on the listed vertex sets are executed concretely as a by-product "
-    "(shapes enumerated by forking) and reported, but they are not a solver-decided claim",
+    "neighbour lists have no real-valued input: they are decided per HISTORY of meshes (shapes / vertex-set indices are solver integers concretised "
+    "by forking, each history evaluated in a forked pristine process image); Delaunay adjacency is compared with the edges of the natively computed "
+    "scipy triangulation of the listed vertex sets only; histories longer than 3 meshes and shapes beyond the stated ranges are outside",
     "rectangular cells: points closer than 1e-9 pixel to a cell line are excluded from the end-to-end matrix equality (float64 rounding of the overlay "
     "scales makes the line itself uncertain by ~1e-16); the containment obligation covers them with bounds widened by the same 1e-9 pixel",
     "float64 rounding in general (exact real arithmetic; 1e-9 relative tolerance where the code accumulates concrete floats such as 9 x fl(1/9))",
@@ -65,6 +69,8 @@ STUBS = [
     "directly, otherwise the comparison forks (no semantic change, avoids if-then-else chains inside divisors)",
     "np.abs of a proxy (harness patch): returns x or -x when the path condition entails the sign (two entailment queries), else the usual if-then-else",
     "branch conditions are rewritten to sum-of-monomials form (z3.simplify som=True) before feasibility checks (pure rewriting)",
+    "neighbour histories run in an os.fork() child of the worker (and every task runs in a fresh worker, MAXTASKS=1) so that process-wide state of the "
+    "repository cannot leak between paths; the child returns plain lists",
 ]
 ASSUMPTIONS = [
     "Delaunay cases: the sub-pixel lies in the closed simplex reported for it (find_simplex contract)",
